@@ -1,8 +1,9 @@
 /-
   C05 — a resource has at most one holder at any time (mutual exclusion)
-  Property theorems only (the process-layer model is CimbaModel/Sim; helper lemmas in CimbaModel/Sim/*).
+  Property theorems only (the process-layer model is CimbaModel/Sim; helper lemmas in CimbaModel/Sim/S1*.lean).
 -/
 import CimbaModel.Sim.Basic
+import CimbaModel.Sim.S1Demo
 import CimbaModel.HashHeap.Orders
 
 namespace CimbaModel.Props.C05
@@ -21,11 +22,291 @@ theorem acquire_of_held_blocks (w : World) (p q : Pid) (r : Nat) (x : Res)
   unfold acquireStep
   simp only [hx, hq]
   refine ⟨_, rfl, ?_⟩
-  simp only [block, World.modProc, guardWaitEnter]
-  split
-  · simp [World.fail]; split <;> rfl
-  · split
-    · simp [addAwait, World.modProc]
-    · simp [World.fail]; split <;> rfl
+  simp
+
+/-! ### the holder invariant -/
+
+/-- **The holder invariant.**  For every resource `r` of the world and every process `p`:
+    the resource names `p` as its holder exactly when `p` lists the resource among what it holds; no process lists a
+    resource twice; a holder is a process of the table; and nobody lists a resource that does not exist. -/
+structure HolderInv (w : World) : Prop where
+  agree : ∀ (r : Nat) (x : Res) (p : Pid), w.res[r]? = some x → p < w.procs.size → (x.holder = some p ↔ HoldRef.res r ∈ (w.proc p).held)
+  once : ∀ p r, (w.proc p).held.count (.res r) ≤ 1
+  bound : ∀ (r : Nat) (x : Res) (p : Pid), w.res[r]? = some x → x.holder = some p → p < w.procs.size
+  real : ∀ r p, w.res[r]? = none → HoldRef.res r ∉ (w.proc p).held
+
+/-- the invariant in the one-line form used by the proofs: process `p` lists resource `r` once if it is the holder and
+    not at all otherwise -/
+theorem holderInv_iff (w : World) : HolderInv w ↔ HInv w := by
+  constructor
+  · intro h r p
+    unfold World.hcount
+    cases hx : w.res[r]? with
+    | none =>
+      rw [holder_none_of_no_res w r hx]
+      simp only [reduceCtorEq, if_false]
+      exact List.count_eq_zero.2 (h.real r p hx)
+    | some x =>
+      rw [holder_eq w r x hx]
+      by_cases e : x.holder = some p
+      · have hp := h.bound r x p hx e
+        have hm := (h.agree r x p hx hp).1 e
+        have := h.once p r
+        have : 0 < (w.proc p).held.count (.res r) := List.count_pos_iff.2 hm
+        rw [if_pos e]; omega
+      · rw [if_neg e]
+        apply List.count_eq_zero.2
+        intro hm
+        have hp := lt_np_of_held w p _ hm
+        exact e ((h.agree r x p hx hp).2 hm)
+  · intro h
+    refine ⟨?_, ?_, ?_, ?_⟩
+    · intro r x p hx _
+      rw [h.mem_iff r p, holder_eq w r x hx]
+    · intro p r; exact h.count_le_one r p
+    · intro r x p hx hh
+      exact h.holder_lt r p (by rw [holder_eq w r x hx, hh])
+    · intro r p hx hm
+      have := (h.mem_iff r p).1 hm
+      rw [holder_none_of_no_res w r hx] at this
+      cases this
+
+/-- **at most one holder**: two processes that both list a resource are the same process -/
+theorem at_most_one_holder {w : World} (h : HolderInv w) (r : Nat) (p q : Pid)
+    (hp : HoldRef.res r ∈ (w.proc p).held) (hq : HoldRef.res r ∈ (w.proc q).held) : p = q :=
+  ((holderInv_iff w).1 h).unique r p q hp hq
+
+/-- the invariant holds in every world in which no resource has a holder and no process lists a resource -/
+theorem holderInv_init (w : World) (hres : ∀ (r : Nat) (x : Res), w.res[r]? = some x → x.holder = none)
+    (hheld : ∀ p r, HoldRef.res r ∉ (w.proc p).held) : HolderInv w := by
+  refine ⟨?_, ?_, ?_, ?_⟩
+  · intro r x p hx _
+    rw [hres r x hx]
+    constructor
+    · intro e; cases e
+    · intro m; exact absurd m (hheld p r)
+  · intro p r
+    rw [List.count_eq_zero.2 (hheld p r)]; omega
+  · intro r x p hx hh
+    rw [hres r x hx] at hh; cases hh
+  · intro r p _; exact hheld p r
+
+/-- every command of every script keeps the invariant (`p` any process of the table) -/
+theorem holderInv_execCmd {w : World} (h : HolderInv w) (p : Pid) (hp : p < w.procs.size) (c : Cmd) :
+    HolderInv (execCmd w p c).1 :=
+  (holderInv_iff _).2 (hinv_execCmd ((holderInv_iff w).1 h) p hp c)
+
+/-- every continuation of a suspended library call keeps the invariant -/
+theorem holderInv_resumeFrame {w : World} (h : HolderInv w) (p : Pid) (hp : p < w.procs.size) (f : Frame) (sig : Int) :
+    HolderInv (resumeFrame w p f sig).1 :=
+  (holderInv_iff _).2 (hinv_resumeFrame ((holderInv_iff w).1 h) p hp f sig)
+
+/-- the end of a process (return, exit, stop) keeps the invariant -/
+theorem holderInv_finishProc {w : World} (h : HolderInv w) (p : Pid) (val : Int) (stopped : Bool) :
+    HolderInv (finishProc w p val stopped) :=
+  (holderInv_iff _).2 (hinv_finishProc ((holderInv_iff w).1 h) p val stopped)
+
+/-- running a process until it blocks or ends keeps the invariant, for any script and any amount of fuel -/
+theorem holderInv_runScript {w : World} (h : HolderInv w) (fuel : Nat) (p : Pid) : HolderInv (runScript fuel w p) :=
+  (holderInv_iff _).2 (hinv_runScript fuel ((holderInv_iff w).1 h) p)
+
+/-- **every dispatched event keeps the invariant**: whatever event is next (start, timer, wake-up of any kind,
+    interrupt, resume, user event), whatever the woken process then executes until it blocks or ends -/
+theorem holderInv_dispatch {w w' : World} (h : HolderInv w) (hd : dispatch w = some w') : HolderInv w' :=
+  (holderInv_iff _).2 (hinv_dispatch ((holderInv_iff w).1 h) hd)
+
+/-- the invariant holds at every instant of every run -/
+theorem holderInv_runAll {w : World} (h : HolderInv w) (fuel : Nat) : HolderInv (runAll fuel w) :=
+  (holderInv_iff _).2 (hinv_runAll fuel ((holderInv_iff w).1 h))
+
+/-! ### `grab` is only ever called on a free resource; what success means -/
+
+/-- the holder field in the vocabulary of the model -/
+theorem holder_some_iff (w : World) (r : Nat) (p : Pid) :
+    w.holder r = some p ↔ ∃ x, w.res[r]? = some x ∧ x.holder = some p := by
+  cases hx : w.res[r]? with
+  | none => simp [holder_none_of_no_res w r hx]
+  | some x => simp [holder_eq w r x hx]
+
+/-- on a free resource `grab` is the double update and raises no fault; on a held one the model records a fault, so the
+    absence of faults in the validated runs means it never happened there; the three theorems after this one show it
+    cannot happen at all -/
+theorem grab_free_is_clean (w : World) (r : Nat) (p : Pid) (x : Res) (hx : w.res[r]? = some x) (hf : x.holder = none) :
+    (grab w r p).fault = w.fault ∧ (grab w r p).holder r = some p :=
+  ⟨grab_free_fault w r p x hx hf, grab_holder w r p x hx⟩
+
+theorem grab_held_is_a_fault (w : World) (r : Nat) (p q : Pid) (x : Res) (hx : w.res[r]? = some x)
+    (hq : x.holder = some q) (hok : w.fault = none) : (grab w r p).fault = some s!"grab of held resource {r}" :=
+  grab_held_faults w r p q x hx hq hok
+
+/-- call site 1 (`acquire`, and the re-check of a resumed `acquire`): `grab` exactly when the holder field is empty -/
+theorem grab_only_when_free_acquire (w : World) (p : Pid) (r : Nat) (x : Res) (hx : w.res[r]? = some x) :
+    (x.holder = none → acquireStep w p r = (recordRes (grab w r p) r, .ret sigSuccess "")) ∧
+    (∀ q, x.holder = some q →
+      acquireStep w p r = block (guardWaitEnter w x.guard p (.resAvail r)) p (.acquire r)) :=
+  ⟨acquireStep_free w p r x hx, fun q => acquireStep_held w p q r x hx⟩
+
+/-- call site 2 (a waiting `acquire` resumed with the success code): the same re-check, in the world after the wait's
+    epilogue, which has not touched the resource -/
+theorem grab_only_when_free_resume (w : World) (p : Pid) (r : Nat) (x : Res) (hx : w.res[r]? = some x) :
+    resumeFrame w p (.acquire r) sigSuccess = acquireStep (guardWaitLeave w x.guard p sigSuccess) p r ∧
+    (guardWaitLeave w x.guard p sigSuccess).res = w.res := by
+  constructor
+  · simp only [resumeFrame, hx, if_true]
+  · simp
+
+/-- call site 3 (`preempt` against a holder of lower or equal priority): the victim is relieved first, so the `grab`
+    is a grab of a free resource -/
+theorem grab_only_when_free_preempt (w : World) (p victim : Pid) (r : Nat) (x : Res) (hx : w.res[r]? = some x)
+    (hv : x.holder = some victim) (hne : victim ≠ p) (hpri : (w.proc p).prio ≥ (w.proc victim).prio) :
+    execCmd w p (.preempt r) = (grab (preemptMid w r victim) r p, .ret sigSuccess "") ∧
+    (preemptMid w r victim).res[r]? = some { x with holder := none } :=
+  ⟨preempt_victim_eq w p victim r x hx hv hne hpri, preemptMid_free w r victim x hx⟩
+
+/-- **mutual exclusion, `acquire`**: if `acquire r` by `p` returns the success code, then nobody held `r` before the call
+    and afterwards `p` is the holder — the only process listing `r` -/
+theorem acquire_success_exclusive {w : World} (h : HolderInv w) (p : Pid) (hp : p < w.procs.size) (r : Nat) (x : Res)
+    (hx : w.res[r]? = some x) (w' : World) (e : String)
+    (hret : execCmd w p (.acquire r) = (w', .ret sigSuccess e)) :
+    x.holder = none ∧ (∃ x', w'.res[r]? = some x' ∧ x'.holder = some p) ∧ HolderInv w' ∧
+      ∀ q, HoldRef.res r ∈ (w'.proc q).held ↔ q = p := by
+  obtain ⟨a, b, c⟩ := acquire_success ((holderInv_iff w).1 h) p hp r x hx w' e hret
+  refine ⟨a, (holder_some_iff _ _ _).1 b, (holderInv_iff _).2 c, fun q => ?_⟩
+  rw [c.mem_iff r q, b]
+  constructor
+  · intro e; exact (Option.some.inj e).symm
+  · intro e; rw [e]
+
+/-- the same for a waiting `acquire` that is resumed: it reports success only if it was resumed with the success code and
+    its re-check found the resource free -/
+theorem resumed_acquire_success_exclusive {w : World} (h : HolderInv w) (p : Pid) (hp : p < w.procs.size) (r : Nat)
+    (x : Res) (hx : w.res[r]? = some x) (sig : Int) (w' : World) (e : String)
+    (hret : resumeFrame w p (.acquire r) sig = (w', .ret sigSuccess e)) :
+    sig = sigSuccess ∧ x.holder = none ∧ (∃ x', w'.res[r]? = some x' ∧ x'.holder = some p) ∧ HolderInv w' ∧
+      ∀ q, HoldRef.res r ∈ (w'.proc q).held ↔ q = p := by
+  obtain ⟨s, a, b, c⟩ := resume_acquire_success ((holderInv_iff w).1 h) p hp r x hx sig w' e hret
+  refine ⟨s, a, (holder_some_iff _ _ _).1 b, (holderInv_iff _).2 c, fun q => ?_⟩
+  rw [c.mem_iff r q, b]
+  constructor
+  · intro e; exact (Option.some.inj e).symm
+  · intro e; rw [e]
+
+/-- **mutual exclusion, `preempt`**: if `preempt r` by `p` returns the success code, then either nobody held `r`, or the
+    previous holder `q` had a priority not above `p`'s, no longer lists `r`, and has a PREEMPTED wake-up pending at the
+    current time; afterwards `p` is the only process listing `r` -/
+theorem preempt_success_exclusive {w : World} (h : HolderInv w) (p : Pid) (hp : p < w.procs.size) (r : Nat) (x : Res)
+    (hx : w.res[r]? = some x) (w' : World) (e : String)
+    (hret : execCmd w p (.preempt r) = (w', .ret sigSuccess e)) :
+    (∃ x', w'.res[r]? = some x' ∧ x'.holder = some p) ∧ HolderInv w' ∧
+    (∀ q, HoldRef.res r ∈ (w'.proc q).held ↔ q = p) ∧
+    (x.holder = none ∨
+      ∃ q, x.holder = some q ∧ q ≠ p ∧ (w.proc q).prio ≤ (w.proc p).prio ∧ HoldRef.res r ∉ (w'.proc q).held ∧
+        ∃ ev ∈ w'.ev.pending, ev.item.a = aPreempt ∧ ev.item.b = q + 1 ∧ ev.item.c = encSig sigPreempted ∧
+          ev.d = w.now) := by
+  obtain ⟨b, c, d⟩ := preempt_success ((holderInv_iff w).1 h) p hp r x hx w' e hret
+  refine ⟨(holder_some_iff _ _ _).1 b, (holderInv_iff _).2 c, fun q => ?_, d⟩
+  rw [c.mem_iff r q, b]
+  constructor
+  · intro e; exact (Option.some.inj e).symm
+  · intro e; rw [e]
+
+/-- while somebody else holds the resource, `acquire` does not return: no other process's acquire succeeds between a
+    successful acquire/preempt and the holder's release, loss by preemption, or end -/
+theorem acquire_blocks_while_held (w : World) (p q : Pid) (r : Nat) (x : Res)
+    (hx : w.res[r]? = some x) (hq : x.holder = some q) : (execCmd w p (.acquire r)).2 = .blocked := by
+  simp only [execCmd]
+  rw [acquireStep_held w p q r x hx hq]; rfl
+
+/-- … and a `preempt` by a process of lower priority than the holder's waits as well -/
+theorem preempt_blocks_below_holder (w : World) (p q : Pid) (r : Nat) (x : Res)
+    (hx : w.res[r]? = some x) (hq : x.holder = some q) (hne : q ≠ p) (hpri : (w.proc p).prio < (w.proc q).prio) :
+    (execCmd w p (.preempt r)).2 = .blocked := by
+  have h1 : ¬ some q = some p := fun e => hne (Option.some.inj e)
+  have h2 : ¬ (w.proc p).prio ≥ (w.proc q).prio := by omega
+  simp only [execCmd, hx, hq, h1, if_false, h2]
+  rw [acquireStep_held w p q r x hx hq]; rfl
+
+/-! ### the queries describe the unique holder -/
+
+/-- **holder / in-use / available agree with the processes' own records**: under the invariant, the holder query names
+    exactly the process that lists the resource; the in-use count (also the value written to the history) is the total
+    number of listings over all processes, hence 0 or 1; "available" (what waiters' demands and the guard test) holds
+    exactly when nobody lists it -/
+theorem queries_agree {w : World} (h : HolderInv w) (r : Nat) (x : Res) (hx : w.res[r]? = some x) :
+    (∀ p, x.holder = some p ↔ HoldRef.res r ∈ (w.proc p).held) ∧
+    ((if x.holder.isSome then 1 else 0) =
+      ((List.range w.procs.size).map fun p => (w.proc p).held.count (.res r)).sum) ∧
+    (evalDemand w (.resAvail r) = true ↔ ∀ p, HoldRef.res r ∉ (w.proc p).held) ∧
+    (evalDemand w (.cond 1 r 0) = true ↔ ∀ p, HoldRef.res r ∉ (w.proc p).held) := by
+  have hi := (holderInv_iff w).1 h
+  refine ⟨holder_iff_listed hi r x hx, inUse_eq_listed hi r x hx, available_iff_unlisted hi r x hx, ?_⟩
+  have e : evalDemand w (.cond 1 r 0) = evalDemand w (.resAvail r) := rfl
+  rw [e]; exact available_iff_unlisted hi r x hx
+
+/-! ### ending or stopping the holder frees the resource -/
+
+/-- **`end_frees`**: after the end of `p` (return / exit: `stopped = false`; stop by another process or by itself:
+    `stopped = true`) every resource `p` listed has no holder, every other resource has the holder it had, the other
+    processes' lists are untouched, `p` lists nothing, and the invariant holds again — so the next waiter's demand
+    ("nobody holds it") is satisfied -/
+theorem end_frees {w : World} (h : HolderInv w) (p : Pid) (val : Int) (stopped : Bool) :
+    (∀ r, HoldRef.res r ∈ (w.proc p).held → (finishProc w p val stopped).holder r = none) ∧
+    (∀ r, HoldRef.res r ∉ (w.proc p).held → (finishProc w p val stopped).holder r = w.holder r) ∧
+    (∀ q, q ≠ p → ((finishProc w p val stopped).proc q).held = (w.proc q).held) ∧
+    (p < w.procs.size → ((finishProc w p val stopped).proc p).held = []) ∧
+    HolderInv (finishProc w p val stopped) :=
+  ⟨fun r hr => finishProc_frees w p val stopped r hr, fun r hr => finishProc_keeps w p val stopped r hr,
+   fun q hq => finishProc_held_other w p q hq val stopped,
+   fun hp => (finishProc_record w p hp val stopped).1, holderInv_finishProc h p val stopped⟩
+
+/-- the release of each holding is followed by a signal to that resource's guard: `cmi_process_drop_resources` is the
+    left fold, over the list of holdings, of "clear the holder field; record; signal the guard" (pools: drop the
+    holder record, record, signal) -/
+theorem end_signals_each_guard (w : World) (p : Pid) :
+    dropResources w p = (w.proc p).held.foldl (dropStep p) (w.modProc p fun x => { x with held := [] }) ∧
+    (∀ (w' : World) (r : Nat) (x : Res), w'.res[r]? = some x →
+      dropStep p w' (.res r) =
+        signal (recordRes { w' with res := w'.res.set! r { x with holder := none } } r) x.guard) := by
+  refine ⟨dropResources_eq w p, ?_⟩
+  intro w' r x hx
+  simp [dropStep, hx]
+
+/-- … and a signal to a guard whose front waiter's demand holds schedules that waiter's resumption with the success
+    code at the current time -/
+theorem signal_offers_to_front_waiter (w : World) (g : Nat) (gd : Guard) (hg : w.guards[g]? = some gd)
+    (hne : gd.q.count ≠ 0) (t : HTag) (hpeek : HashHeap.peek gd.q = .ok (some t))
+    (hdem : evalDemand w ((gd.demands.lookup t.key).getD (.cond 99 0 0)) = true)
+    (q' : HH) (x : Option HTag) (hdeq : HashHeap.dequeue guard_queue_check gd.q = .ok (q', x)) :
+    ∃ e ∈ (signal w g).ev.pending, e.item.a = aRes ∧ e.item.b = t.key - 1 + 1 ∧ e.item.c = encSig sigSuccess ∧
+      e.d = w.now ∧ e.i = (w.proc (t.key - 1)).prio :=
+  signal_grants_front w g gd hg hne t hpeek hdem q' x hdeq
+
+/-! ### non-vacuity: a concrete world (two running processes of priorities 0 and 5, one resource) -/
+
+/-- the invariant's hypotheses are satisfiable, and the theorems apply to a world in which the resource is held -/
+example : HolderInv demoWorld := by
+  apply holderInv_init
+  · intro r x hx
+    match r with
+    | 0 => simp [demoWorld] at hx; rw [← hx]
+    | n + 1 => simp [demoWorld] at hx
+  · intro p r
+    have h0 : (demoWorld.proc 0).held = [] := by decide
+    have h1 : (demoWorld.proc 1).held = [] := by decide
+    have h2 : (demoWorld.proc 2).held = [] := by decide
+    match p with
+    | 0 => rw [h0]; simp
+    | 1 => rw [h1]; simp
+    | 2 => rw [h2]; simp
+    | n + 3 => simp [demoWorld, World.proc]
+
+example : demoHeld.holder 0 = some 0 ∧ (demoHeld.proc 0).held = [.res 0] := by decide
+/-- a second `acquire` blocks, a `preempt` by the higher-priority process succeeds and relieves the first holder -/
+example : (match (execCmd demoHeld 1 (.acquire 0)).2 with | .blocked => true | _ => false) = true := by decide
+example : (execCmd demoHeld 1 (.preempt 0)).1.holder 0 = some 1 ∧
+    ((execCmd demoHeld 1 (.preempt 0)).1.proc 0).held = [] ∧
+    ((execCmd demoHeld 1 (.preempt 0)).1.ev.pending.map fun e => (e.item.a, e.item.b)) = [(aPreempt, 1)] := by decide
+/-- stopping the holder frees the resource -/
+example : (finishProc demoHeld 0 7 true).holder 0 = none := by decide
 
 end CimbaModel.Props.C05
